@@ -424,6 +424,14 @@ def run_large(spec, ctx):
             ctx.violation("C06:large:interchangeable:%s:%s" % (shape, kind),
                           "two equal %ss of %d %s members built in different orders: [==, in set, set size 1, map lookup, set ==, remove, in list, same text] = %s" % (
                               shape, n, kind, core.safe_str(o.value if o.kind == "value" else o.exc, 200)), {"n": n})
+        if r.random() < 0.2:
+            # function values: equality is identity, whatever name a later def gives them
+            o = ev("def f = fn(x) x; def s = << f >>; def m = <<< identity(f) => 1 >>>; def g = f; def renamed = g; def h = fn(x) x; "
+                   "[f in s, g in s, renamed in s, m[g, 0] == 1, length(<< f, g, renamed >>) == 1, f == g, h in s, length(<< f, h >>), f == h, (fn(x) x) in s]")
+            ctx.count("program_evaluations")
+            ctx.count("function_value_programs")
+            if o.kind != "value" or core.safe_str(o.value) != "[TRUE, TRUE, TRUE, TRUE, TRUE, TRUE, FALSE, 2, FALSE, FALSE]":
+                ctx.violation("C06:function-values", "a function held in a set / as a map key, then given other names by def: %s" % core.safe_str(o.value if o.kind == "value" else o.exc, 200), {})
         # membership / difference against a long right-hand side holding numerically equal numbers of the other kind
         m = r.choice([17, 33, 65, 130])
         rhs_vals = r.sample(range(0, 400), m)
